@@ -102,7 +102,9 @@ def world2pixel_single_axis(wcs, *world, pixel_axis=None):
 
     # Now find all the world coordinates that are needed to calculate this
     # world coordinate, using the axis correlation matrix
-    world_dep = wcs.axis_correlation_matrix[:, pixel_axis]
+    # (the inverse transformation can depend on more world coordinates than
+    # the ones that depend on this pixel coordinate)
+    world_dep = _world_axes_connected_to_pixel_axis(wcs.axis_correlation_matrix, pixel_axis)
 
     for iw, w in enumerate(world):
         if world_dep[iw]:
@@ -190,6 +192,38 @@ def world_axis_dependencies(wcs, axis):
         return (axis,)
     matrix = wcs.axis_correlation_matrix[::-1, ::-1]
     return tuple(np.nonzero(matrix[axis])[0])
+
+
+def _world_axes_connected_to_pixel_axis(matrix, pixel_axis):
+    # Find all world axes that are connected to a pixel axis through the axis
+    # correlation matrix (indexed as [world, pixel]), as a boolean array.
+    pixel = np.zeros(matrix.shape[1], dtype=bool)
+    pixel[pixel_axis] = True
+    while True:
+        world = matrix[:, pixel].any(axis=1)
+        pixel_new = matrix[world].any(axis=0) | pixel
+        if np.array_equal(pixel_new, pixel):
+            return world
+        pixel = pixel_new
+
+
+def pixel_axis_dependencies(wcs, axis):
+    """
+    Return a tuple of the world axes that a given pixel axis depends on.
+
+    The world to pixel transformation can depend on more world axes than the
+    ones that depend on the pixel axis: if world x depends on pixel x and y, and
+    world y on pixel y, then pixel x depends on both world x and y. We
+    therefore return all world axes that are connected to the pixel axis
+    through the axis correlation matrix.
+
+    The axis indices are given in numpy ordering convention (note that
+    opposite the fits convention)
+    """
+    if isinstance(wcs, LegacyCoordinates):
+        return (axis,)
+    matrix = wcs.axis_correlation_matrix[::-1, ::-1]
+    return tuple(np.nonzero(_world_axes_connected_to_pixel_axis(matrix, axis))[0])
 
 
 def _get_ndim(header):
